@@ -349,6 +349,33 @@ theorem missing_positional_aux (args : List CArg) (h : ∀ a ∈ args, a.name = 
         apply List.mem_append_right
         exact ih left j hj' (by omega) (by simpa using hd)
 
+/-- MAIN (defaults): a default value whose type the parameter does not accept is reported, at that parameter. -/
+theorem wrong_default_reported (ok : String → String → Bool) (ps : List (String × String × Option String))
+    (i : Nat) (n t d : String) (h : ps[i]? = some (n, t, some d)) (hbad : ok d t = false) :
+    i ∈ defaultErrors ok ps := by
+  unfold defaultErrors
+  have hi : i < ps.length := by
+    rcases Nat.lt_or_ge i ps.length with hlt | hge
+    · exact hlt
+    · rw [List.getElem?_eq_none hge] at h; exact absurd h (by simp)
+  exact List.mem_filter.2 ⟨List.mem_range.2 hi, by simp [h, hbad]⟩
+
+/-- … and nothing else is: a declaration whose defaults all fit (or that has none) gets no default diagnostic. -/
+theorem fitting_defaults_accepted (ok : String → String → Bool) (ps : List (String × String × Option String))
+    (h : ∀ (i : Nat) (n t d : String), ps[i]? = some (n, t, some d) → ok d t = true) : defaultErrors ok ps = [] := by
+  unfold defaultErrors
+  apply List.filter_eq_nil_iff.2
+  intro i _
+  cases hp : ps[i]? with
+  | none => simp
+  | some p =>
+    obtain ⟨n, t, d⟩ := p
+    cases d with
+    | none => simp
+    | some d => simp [h i n t d hp]
+
+example : defaultErrors (· == ·) [("a", "int", some "int"), ("b", "str", some "int"), ("c", "bool", none)] = [1] := by decide
+
 /-- MAIN (arity, too few): in a positional call, every parameter beyond the arguments that has no default value is
 reported missing. -/
 theorem missing_argument_reported (args : List CArg) (h : ∀ a ∈ args, a.name = none) (defaults : List String)
